@@ -168,7 +168,8 @@ pub fn expected(xot: &Xot, vocab: &Vocab, op: &Op, a: Node, b: Node) -> Option<b
         }
         Op::Adv(f, c) => {
             if !is_tree_node(&ca.v) || !is_tree_node(&cb.v) {
-                return None;
+                // attribute / namespace nodes are compared by value, whatever the filter
+                return Some(value_rel(super::text_cmp(c), &ca.v, &cb.v));
             }
             let keep = keep_of(f);
             forest_rel(super::text_cmp(c), &filtered(&ca, &*keep), &filtered(&cb, &*keep))
